@@ -21,7 +21,7 @@ EXPLANATION = (
 
 def check(ctx, run):
     f = ctx.facts
-    run.rules_run = ['R13.1', 'R13.2', 'R13.3', 'R13.4', 'R13.5', 'R13.6', 'R13.7', 'R13.8']
+    run.rules_run = ['R13.1', 'R13.2', 'R13.3', 'R13.4', 'R13.5', 'R13.6', 'R13.7', 'R13.8', 'R05.14']
     # ---- R13.1
     keytypes = {}
     for fn in FNS:
@@ -227,4 +227,6 @@ def check(ctx, run):
     pub = {'functions::array_distinct', 'functions::array_intersection', 'functions::array_except', 'functions::array_overlap'}
     dispatch.r11_1(ctx, run, rule='R13.7/R11.1', only=pub)
     dispatch.r11_3(ctx, run, rule='R13.7/R11.3', only=set(pub))
+    from rules import walkers as _walkers
+    _walkers.w_pair(ctx, run, 'R13.9/R05.14', only=lambda p_: p_.startswith('functions::array_'))
     return report.finish(run, level='other', explanation=EXPLANATION, assumptions=["A1: valid documents"])
